@@ -30,6 +30,11 @@ def some_map(F, path):
     fn = F.fn(path)
     if fn is None:
         return None, None
+    # however the table is written (one match of Some(..) arms, an early return for the rest, a binding wrapped afterwards, ...):
+    # KIND computes the function's result for every token kind
+    bk = _some_map_by_kind(F, fn)
+    if bk is not None:
+        return fn, bk
     m = tables.enum_map(fn, 1)
     if not m:
         return fn, None
@@ -46,6 +51,32 @@ def some_map(F, path):
         if vals:
             out[v] = vals
     return fn, out
+
+
+def _some_map_by_kind(F, fn):
+    from .. import kind, kindtables as kt
+    from ..kind import E, is_e
+    TT_ = "frontend::lexer::TokenType"
+    if TT_ not in F.adts or fn.argc != 1:
+        return None
+    I = kind.Interp(F)
+    out = {}
+    for v in F.adts[TT_]["variants"]:
+        arg = E(TT_, v["name"], *[("sym", "p%d" % i) for i, _ in enumerate(v.get("fields", []))])
+        vals = set()
+        for o in I.run(fn, [arg]):
+            r = o.ret
+            if is_e(r, "std::option::Option") and r[2] == "Some" and r[3] and is_e(r[3][0]):
+                vals.add(r[3][0][2])
+            elif is_e(r, "std::option::Option") and r[2] == "None":
+                pass
+            else:
+                vals.add("?")
+        if vals:
+            out[v["name"]] = vals
+    if I.incomplete:
+        return None
+    return out
 
 
 def next_level(F, fn, operand):
@@ -76,6 +107,43 @@ def case_variants(s):
         else:
             out = {x + ch for x in out}
     return out
+
+
+def _on_positive_edge_of_not(F, nb, eb):
+    """form B of `not -> NotEq, otherwise Eq`: in body nb the NotEq value is built only on the edge on which match_and_consume(Not)
+    matched (is_some() true / the Some arm), and the Eq value (body eb) is not built on that edge"""
+    from ..guards import _bool_edges, _dominated_by_edge
+    from .. import progress
+    BO = "frontend::ast::BinaryOperator"
+
+    def builds(b, variant):
+        out = []
+        for bi, si, s in b.assigns():
+            a = s["rv"].get("agg")
+            if isinstance(a, dict) and a.get("adt") == BO and a.get("variant") == variant:
+                out.append(bi)
+        return out
+    ne = builds(nb, "NotEq")
+    eq = builds(eb, "Eq") if eb is nb else None
+    if not ne:
+        return False
+    for cb, ct in nb.calls():
+        if callee_def(ct) != PARSER + "match_and_consume" or tokens.resolve_token_set(F, nb, ct["args"][1]) != {"Not"}:
+            continue
+        edges = []
+        for b2, t2 in nb.calls():
+            if t2["callee"].get("name") == "is_some" and cb in progress.deep_sources(nb, t2["args"][0]):
+                e = _bool_edges(nb, b2)
+                if e:
+                    edges.append((e[0], e[2]))
+        for sb in range(len(nb.blocks)):
+            sw = tables.arms_complete(nb, sb)
+            if sw and "Some" in sw[2] and cb in progress.deep_sources(nb, {"copy": {"l": sw[0]["l"], "p": []}}):
+                edges.append((sb, sw[2]["Some"]))
+        for sb, tg in edges:
+            if all(b == tg or _dominated_by_edge(nb, b, sb, tg) for b in ne) and (eq is None or not any(b == tg or _dominated_by_edge(nb, b, sb, tg) for b in eq)):
+                return True
+    return False
 
 
 @prop("C02")
@@ -207,7 +275,7 @@ def c02(ctx):
             from ..guards import _closure_use
             use = _closure_use(F, nb) if nb.kind == "closure" else None
             kinds = tokens.token_kinds_of_value(F, use[0], use[2]["args"][0]) if use else None
-            if kinds != {"Not"}:
+            if kinds != {"Not"} and not _on_positive_edge_of_not(F, nb, ops["Eq"]):
                 ok, why = False, "NotEq is not tied to a matched `not` token"
         rep.ob("C02.R3", "fancy::not->NotEq,default->Eq", ok, why, fc.loc(), how="match_and_consume(Not).map(NotEq).unwrap_or(Eq)")
         sets = []
@@ -273,6 +341,28 @@ def c02(ctx):
         ok = union == set(dom) - FANCY_WORDS
         rep.ob("C02.R4", "levels-cover-operator-table", ok, "" if ok else "tokens with an operator but no precedence level: %s; with a level but no operator: %s" % (
             sorted(set(dom) - FANCY_WORDS - union), sorted(union - set(dom))), None, how="union = domain of get_binary_operator minus {bigger, big, smaller, small}")
+    # the bottom rung: `at` binds tighter than every operator and every prefix keyword -- whoever parses a primary expression without
+    # its subscripts is the subscript machinery itself (it goes on to match `at`, or hands the result to the function that does)
+    NSP = PARSER + "parse_non_subscript_primary_expression"
+    n_nsp = 0
+    at_handlers = set()
+    for fn in F.all_fns(tests=False):
+        if fn.kind == "closure" or not fn.file.endswith("frontend/parser.rs"):
+            continue
+        for b in F.with_closures(fn):
+            for bi, t in b.calls():
+                if callee_def(t) == PARSER + "match_and_consume" and tokens.resolve_token_set(F, b, t["args"][1]) == {"At"}:
+                    at_handlers.add(fn.path)
+    for b, bi, t in common.who_calls(F, lambda c: c.get("def") == NSP):
+        top = common.top_fn(F, b)
+        n_nsp += 1
+        hands_on = any((callee_def(t2) or "") in at_handlers for b2 in F.with_closures(top) for _, t2 in b2.calls())
+        ok = top.path in at_handlers or hands_on
+        rep.ob("C02.R4", "subscripts-follow-primary::" + top.path.rsplit("::", 1)[-1], ok,
+               "" if ok else "%s parses a primary expression without its subscripts and neither matches `at` itself nor hands the result to the function that does: `at` no longer binds to this operand, so the same words group differently here than elsewhere" % top.path.rsplit("::", 1)[-1],
+               b.loc(t["line"]), how="caller matches `at` or calls %s" % sorted(x.rsplit("::", 1)[-1] for x in at_handlers))
+    rep.ob("C02.R4", "subscripts-follow-primary::sites", n_nsp >= 2 and bool(at_handlers), "" if n_nsp >= 2 and at_handlers else "only %d call sites of parse_non_subscript_primary_expression / no function matching `at` found" % n_nsp, None,
+           how="%d call sites, `at` matched in %s" % (n_nsp, sorted(x.rsplit("::", 1)[-1] for x in at_handlers)))
     # ---- R5
     lw = F.fn("frontend::parser::is_literal_word")
     pl = F.fn(PARSER + "parse_literal_expression")
@@ -321,6 +411,20 @@ def c02(ctx):
                     arms |= set(sw[2])
         ok = bool(admitted) and admitted <= arms | {"Word"}
         rep.ob("C02.R5", "poetic-tokens-have-arms", ok, "" if ok else "tokens admitted into a poetic literal without an arm in the element mapping: %s" % sorted(admitted - arms), pt.loc(), how=str(sorted(admitted)))
+        # a poetic word is a word by its spelling, whatever kind the lexer gave it (keywords, aliases, pronouns, numbers count their
+        # letters too): inside the literal the only token kinds ever tested are the punctuation kinds admitted above
+        kind_tests = set(arms)
+        for b in F.with_closures(pn):
+            for bi, t in b.calls():
+                d = callee_def(t) or ""
+                if d.startswith("frontend::lexer::TokenType::") and (t["callee"].get("name") or "").startswith("is_"):
+                    kind_tests.add("".join(w.capitalize() for w in t["callee"]["name"][3:].split("_")))
+        canon = {k.lower(): k for k in admitted}
+        kind_tests = {canon.get(k.lower(), k) for k in kind_tests}
+        ok = bool(admitted) and kind_tests <= admitted
+        rep.ob("C02.R5", "poetic-words-by-spelling", ok,
+               "" if ok else "inside a poetic literal the token kind %s is tested: a word that happens to be spelled like a keyword is treated differently from any other word, although a poetic word only counts its letters" % sorted(kind_tests - admitted),
+               pn.loc(), how="kinds tested inside the literal: %s" % sorted(kind_tests))
     ps = F.fn(PARSER + "parameter_seps")
     if ps is not None:
         rep.analysed(ps)
@@ -357,12 +461,29 @@ def c02(ctx):
         rep.analysed(tw)
         lits = []
         dynamic = False
+        def _strips_dynamic(h):
+            """a private helper that strips a suffix it was handed (its strip_suffix takes no literal)"""
+            for hb in F.with_closures(h):
+                for _, ht in hb.calls():
+                    if ht["callee"].get("name") == "strip_suffix" and "indirect" not in ht["callee"] and len(ht["args"]) > 1 and not tables.str_list_of(hb, ht["args"][1]):
+                        return True
+            return False
         for b in F.with_closures(tw):
             for bi, t in b.calls():
                 if t["callee"].get("name") == "strip_suffix" and "indirect" not in t["callee"] and len(t["args"]) > 1:
                     s = tables.str_list_of(b, t["args"][1])
                     if s:
                         lits.extend(s)
+                    else:
+                        dynamic = True
+                h = F.fn(callee_def(t) or "")
+                if h is not None and h.mir and h.file == tw.file and t["callee"].get("trait") is None and h.kind != "closure" and _strips_dynamic(h):
+                    # the suffix list handed to the helper: every argument that is a list of string literals
+                    got = []
+                    for a in t["args"]:
+                        got.extend(tables.str_list_of(b, a) or [])
+                    if got:
+                        lits.extend(got)
                     else:
                         dynamic = True
                 if t["callee"].get("name") in ("to_lowercase", "to_ascii_lowercase", "eq_ignore_ascii_case", "to_uppercase", "to_ascii_uppercase") and "indirect" not in t["callee"]:
